@@ -9,7 +9,7 @@ CONSTANTS
  Deadline = 1000
  Horizon = 6000
  Settle = 1500
- MaxLog = 2
+ MaxLog = 1
  AppendUntil = 3000
 INVARIANT HealthyProgress
 INVARIANT OneLeaderAtATime
